@@ -42,7 +42,7 @@ META = {
              assumptions=['implicit flows through exceptions are not tracked (a raising run returns nothing)']),
  'C08': dict(technique=DED + ': loop invariant mu == BP(theta) (uninterpreted BP) through mirror descent; potentials == mle(marginals) at the RDA/IG exits; validity of answers by bounded run-time contract',
              ded='mirror_descent: stored marginals are belief_propagation(stored potentials) at every exit that stores marginals (inner and outer loop invariants, zero-iteration and early-exit paths). '
-                 'dual_averaging / interior_gradient: stored potentials are mle(stored marginals).',
+                 'dual_averaging / interior_gradient: stored potentials are mle(stored marginals). GraphicalModel.__init__: cliques, schedule, separators, neighbours and elimination order are those of one junction tree built from the arguments, the cliques in the order the tree returns them (the order mle\'s factorisation is valid for).',
              trusted=['L-mle (textbook): for globally consistent marginals on a junction tree in running-intersection order, BP(mle(mu)) = mu — assumed, exercised bounded', 'belief_propagation, mle, _marginal_loss deterministic']),
  'C09': dict(technique=DED + ': call-site contracts on the four copies of the total estimation (value passed to the model constructor / returned; appended variance and estimate terms)',
              ded='a caller-supplied total reaches the model constructor unchanged; otherwise the value is 1 when no measurement qualifies and max(1, (1/sum(1/v)) * sum(e/v)) with v = noise^2 <w,w>, e = <w,y>, w = lsmr(Q^T, 1)[0] — for every measurement list, in FactoredInference._setup, LocalInference._setup and both estimate_total copies.',
